@@ -20,6 +20,26 @@ def run():
         p = subprocess.run(['cbmc', '-DELT=' + elt, '--unwind', '17', src], capture_output=True, text=True, timeout=300)
         st = dict(re.findall(r'\] line \d+ (\w+): (SUCCESS|FAILURE)', p.stdout))
         msgs.append('%s: unwidened symbolic havoc %s the last element' % (elt, 'MISSES' if st.get('bug') == 'SUCCESS' else 'covers'))
+    # second canary: legacy loop instrumentation self-check artefact on `while (1) { .. break; }` (see @@tool_artefact)
+    import tempfile, shutil
+    d = tempfile.mkdtemp(prefix='vf_canary_')
+    try:
+        src2 = os.path.join(HERE, 'canary_truncation.c')
+        a, m, b = (os.path.join(d, x) for x in ('a.gb', 'm.gb', 'b.gb'))
+        ok2 = subprocess.run(['goto-cc', src2, '--function', 'main', '-o', a], capture_output=True).returncode == 0 \
+            and subprocess.run(['goto-instrument', '--apply-loop-contracts', a, m], capture_output=True).returncode == 0 \
+            and subprocess.run(['goto-instrument', '--enforce-contract', 'f', m, b], capture_output=True).returncode == 0
+        if ok2:
+            p = subprocess.run(['cbmc', b], capture_output=True, text=True, timeout=300)
+            fails = re.findall(r'\] line \d+ ([^:]+): FAILURE', p.stdout)
+            if fails and all(x.strip() == 'Check that loop instrumentation was not truncated' for x in fails):
+                msgs.append('legacy while(1)/break loop contract: spurious "instrumentation was not truncated" failure PRESENT (ignored only in units that declare @@tool_artefact truncation-check)')
+            elif not fails:
+                msgs.append('legacy while(1)/break loop contract: artefact absent')
+            else:
+                return False, 'truncation canary: unexpected failures %r' % fails
+    finally:
+        shutil.rmtree(d, ignore_errors=True)
     return True, '; '.join(msgs)
 
 
